@@ -16,6 +16,7 @@ const stepBudget = 1 << 20
 // injection) before the call returned: the caller got no acknowledgement.
 var ErrCrashed = errors.New("sim: the instance crashed before the call returned")
 
+//go:norace
 func (inst *Instance) unfinished(what string) error {
 	if inst.Dead || inst.W.S.CrashRequested {
 		return ErrCrashed
@@ -26,6 +27,8 @@ func (inst *Instance) unfinished(what string) error {
 // RunCall runs fn as an API client of inst. solo=true runs it without
 // interleaving other goroutines (except to free the writer lock); otherwise
 // the schedule tape decides. It reports whether the call finished.
+//
+//go:norace
 func (inst *Instance) RunCall(name string, solo bool, fn func()) bool {
 	g := inst.Call(RoleClient, name, fn)
 	var ok bool
@@ -39,6 +42,8 @@ func (inst *Instance) RunCall(name string, solo bool, fn func()) bool {
 
 // CreateWallet creates a wallet through the API and registers it with the
 // harness (independent derivation from the returned mnemonic).
+//
+//go:norace
 func (inst *Instance) CreateWallet(pass string, bits int, solo bool) (*WalletState, error) {
 	var id, mn string
 	var err error
@@ -64,6 +69,8 @@ func (inst *Instance) CreateWallet(pass string, bits int, solo bool) (*WalletSta
 }
 
 // Use selects a wallet.
+//
+//go:norace
 func (inst *Instance) Use(id string, solo bool) (*masswallet.WalletInfo, error) {
 	var wi *masswallet.WalletInfo
 	var err error
@@ -77,6 +84,8 @@ func (inst *Instance) Use(id string, solo bool) (*masswallet.WalletInfo, error) 
 }
 
 // NewAddress requests a new address of the given class for the current wallet.
+//
+//go:norace
 func (inst *Instance) NewAddress(staking bool, solo bool) (string, error) {
 	cls := massutil.AddressClassWitnessV0
 	if staking {
@@ -104,6 +113,8 @@ func (inst *Instance) NewAddress(staking bool, solo bool) (string, error) {
 
 // owned returns the holder hashes and address strings of a wallet's issued
 // addresses according to the independent derivation.
+//
+//go:norace
 func (w *World) owned(ws *WalletState) (map[[32]byte]bool, map[[32]byte]string, []string) {
 	own := map[[32]byte]bool{}
 	addrOf := map[[32]byte]string{}
@@ -123,10 +134,13 @@ func (w *World) owned(ws *WalletState) (map[[32]byte]bool, map[[32]byte]string, 
 	return own, addrOf, addrs
 }
 
+//go:norace
 func amt(a massutil.Amount) int64 { return a.IntValue() }
 
 // Observe renders what the API shows for wallet id (selecting it first). It
 // must be called at a quiescent point; calls run solo.
+//
+//go:norace
 func (inst *Instance) Observe(id string) (*Obs, error) {
 	wi, err := inst.Use(id, true)
 	if err != nil {
@@ -172,6 +186,8 @@ func (inst *Instance) Observe(id string) (*Obs, error) {
 
 // DiffObs returns a description of the first differences between the
 // wallet's observation and the model's, or "".
+//
+//go:norace
 func DiffObs(got, want *Obs) string {
 	var d []string
 	if got.SyncedTo != want.SyncedTo {
@@ -264,6 +280,8 @@ func DiffObs(got, want *Obs) string {
 // ---- environment operations ----
 
 // MineOnTip extends the best chain by one generated block and announces it.
+//
+//go:norace
 func (w *World) MineOnTip(t *Tape, carryPct int) *BlockRec {
 	tip := w.Node.Tip()
 	b := w.Gen.GenBlock(t, tip, w.Gen.pendingMempool(), carryPct)
@@ -276,6 +294,8 @@ func (w *World) MineOnTip(t *Tape, carryPct int) *BlockRec {
 }
 
 // pendingMempool lists announced transactions not on the best chain.
+//
+//go:norace
 func (g *Gen) pendingMempool() []*wire.MsgTx {
 	var out []*wire.MsgTx
 	for _, m := range g.Mempool {
@@ -290,6 +310,8 @@ func (g *Gen) pendingMempool() []*wire.MsgTx {
 // extra blocks, then reorganises the node to it step by step; between the node
 // database steps the schedule may run up to innerSteps scheduler steps each.
 // Rolled-back transactions are re-mined with probability keepPct each.
+//
+//go:norace
 func (w *World) Fork(t *Tape, depth, extra int, keepPct int, innerSteps int) *BlockRec {
 	best := w.Node.BestChain()
 	if depth >= len(best) {
@@ -335,6 +357,7 @@ func (w *World) Fork(t *Tape, depth, extra int, keepPct int, innerSteps int) *Bl
 	return branch[len(branch)-1]
 }
 
+//go:norace
 func minInt(a, b int) int {
 	if a < b {
 		return a
@@ -342,6 +365,7 @@ func minInt(a, b int) int {
 	return b
 }
 
+//go:norace
 func (w *World) runSteps(n int) {
 	for i := 0; i < n; i++ {
 		if w.S.CrashRequested || !w.S.Step() {
@@ -351,6 +375,8 @@ func (w *World) runSteps(n int) {
 }
 
 // AnnounceLoose draws an unconfirmed transaction and announces it.
+//
+//go:norace
 func (w *World) AnnounceLoose(t *Tape) *wire.MsgTx {
 	tx := w.Gen.GenLooseTx(t)
 	if tx == nil {
@@ -364,6 +390,8 @@ func (w *World) AnnounceLoose(t *Tape) *wire.MsgTx {
 }
 
 // AllDelivered reports whether every running instance has an empty queue.
+//
+//go:norace
 func (w *World) AllDelivered() bool {
 	for _, inst := range w.Insts {
 		if !inst.Dead && inst.Started && len(inst.Pending) > 0 {
@@ -374,6 +402,8 @@ func (w *World) AllDelivered() bool {
 }
 
 // decodeStd returns the holder script hash of a standard address string.
+//
+//go:norace
 func (w *World) decodeStd(addr string) ([32]byte, bool) {
 	var h [32]byte
 	a, err := massutil.DecodeAddress(addr, w.Params)
@@ -386,6 +416,8 @@ func (w *World) decodeStd(addr string) ([32]byte, bool) {
 
 // hdIndexOf finds the key-chain index of a holder hash among the first n
 // external addresses of the independent derivation (-1 if none).
+//
+//go:norace
 func hdIndexOf(hd *HDWallet, h [32]byte, n uint32) int {
 	for i := uint32(0); i < n; i++ {
 		a := hd.Addr(i)
@@ -400,6 +432,8 @@ func hdIndexOf(hd *HDWallet, h [32]byte, n uint32) int {
 // current best chain. The owned address set is what the wallet itself reports
 // (it must contain every address the harness saw issued and only addresses
 // of the wallet's own key chain). class prefixes the violation class.
+//
+//go:norace
 func (w *World) CheckWallet(inst *Instance, ws *WalletState, class string) *Ledger {
 	id := ws.ID
 	chain := w.Node.BestChain()
@@ -464,6 +498,8 @@ func (w *World) CheckWallet(inst *Instance, ws *WalletState, class string) *Ledg
 
 // CheckLedger compares every harness-known wallet of inst that is not being
 // removed with the ledger model.
+//
+//go:norace
 func (w *World) CheckLedger(inst *Instance, class string) {
 	for _, id := range inst.SortedWalletIDs() {
 		ws := inst.Wallets[id]
@@ -474,6 +510,7 @@ func (w *World) CheckLedger(inst *Instance, class string) {
 	}
 }
 
+//go:norace
 func describeTx(tx *wire.MsgTx) string {
 	s := tx.TxHash().String()[:10] + " in["
 	if !tx.IsCoinBaseTx() {
@@ -493,6 +530,7 @@ func describeTx(tx *wire.MsgTx) string {
 	return s + "]"
 }
 
+//go:norace
 func (w *World) logBlock(what string, b *BlockRec) {
 	if !w.LogOn {
 		return
@@ -507,6 +545,8 @@ func (w *World) logBlock(what string, b *BlockRec) {
 // (used for long-chain scenarios: multi-batch rescans, start-up fast-forward).
 // Blocks carry only a coinbase; one in payEvery blocks is drawn from the
 // generator with transactions. Nothing is announced.
+//
+//go:norace
 func (w *World) PreMine(t *Tape, n int, payEvery int) {
 	for i := 0; i < n; i++ {
 		tip := w.Node.Tip()
